@@ -47,6 +47,21 @@ CHECKS = {
          "Same fixpoint and tree as C05 with the wrapped recorder's start failing at arbitrary calls (<=1 quick, <=2 thorough per string; unbounded in the fixpoint); every upstream call is compared with the statement's reference (forwarded unchanged with budget, cut on an empty bucket, restart only with >= one minimum clip, remembered background/threshold, exactly one event per suppressed start or cut, paired start/write/stop, cut files >= minimum length).",
          "Budget is read with Bucket.Available() at the same clock instant as each request (idempotent).",
          "DESIGN.md §4 C06"),
+ "C12": ("A-sequential-explorer",
+         "exhaustive enumeration of event strings x fault placements on the real MotionProcessor with three protocol-monitored sinks; recovery suffix",
+         "Every event string over {motion frame, still frame, bad frame, reset, test-recording request} to length 6 (7) with every placement of one failing sink call, and to length 4 (6) with every pair, continuous recorder on/off, 6 (8) configurations incl. the real Lepton parser; per-sink protocol monitors, recovered panics, and a fault-free suffix that must be recorded exactly as predicted.",
+         "Sinks are harness monitors with CPTVFileRecorder's closing behaviour (closed even when stop errors); the nil-dereference consequence with the real file recorder is shown in the file-level harness (C10/C11).",
+         "DESIGN.md §4 C12"),
+ "C13": ("A-sequential-explorer",
+         "exhaustive enumeration of frame/bad-frame strings on the real MotionProcessor (harness parser and real lepton3.ParseRawFrame) with a differential oracle; exhaustive zero-pixel-position / boundary-value sweep of the Lepton parser",
+         "Processor level: every {motion, still} string to depth 10 (12) with <=2 (3) bad frames at any position, recorder lattice, plus passes with the real Lepton parser and with continuous/test recordings on; bad ids must never reach a sink, the open recording must end within the bad-frame event, and deleting the bad frames must not change detection results or (outside a cut) the sink trace. Parser level: every single and double zero position x edge-pixels 0..2 x three resolutions, every pixel position x six byte-order-revealing values, telemetry words over boundary values.",
+         "The Boson parser (package main) is covered by the overlay harness registered under this property as a second stage once built; arbitrary 16-bit frame contents outside the alphabets are not enumerated.",
+         "DESIGN.md §4 C13"),
+ "C17": ("A-sequential-explorer",
+         "exhaustive prefix enumeration x tail-pattern menu on the real MotionProcessor with monitored continuous/test/motion sinks; differential against the request-free run",
+         "Every prefix over {motion, still, reset} of length 6 (8), then a test-recording request, one of six 23-frame tail patterns, a second request and a second tail; 48 configurations (max-secs 0..4, fps 1..3, continuous on/off, window open/closed, motion sink throttled). Continuous sink must tile the stream in files of max-secs*fps+1 frames; each request must give exactly 21 consecutive frames from the next processed frame; the motion-sink trace must equal the request-free run.",
+         "Tails are drawn from a fixed menu rather than all 2^23 patterns; file placement and space-based pruning of constant-recordings/ depend on the live file system and are not enumerated.",
+         "DESIGN.md §4 C17"),
 }
 NOT_BUILT = "check not built yet (work in progress)"
 
